@@ -14,9 +14,9 @@ import (
 	abci "github.com/cometbft/cometbft/abci/types"
 	tmproto "github.com/cometbft/cometbft/proto/tendermint/types"
 	"github.com/cosmos/cosmos-sdk/baseapp"
+	clienttx "github.com/cosmos/cosmos-sdk/client/tx"
 	codectypes "github.com/cosmos/cosmos-sdk/codec/types"
 	sdk "github.com/cosmos/cosmos-sdk/types"
-	clienttx "github.com/cosmos/cosmos-sdk/client/tx"
 	"github.com/cosmos/cosmos-sdk/types/tx/signing"
 	authsigning "github.com/cosmos/cosmos-sdk/x/auth/signing"
 	authtx "github.com/cosmos/cosmos-sdk/x/auth/tx"
@@ -130,12 +130,12 @@ type ethTxArgs struct {
 	data     []byte
 	access   ethtypes.AccessList
 	// perturbations
-	chainID       *big.Int                  // nil = this chain
-	declaredFrom  sdk.AccAddress            // nil = signer
-	unprotected   bool                      // legacy homestead signature
-	signWith      *itutiltypes.TestAccount  // nil = from
-	feeAmount     *sdk.Coins                // nil = gas*cap
-	wrapGasLimit  *uint64                   // nil = gas
+	chainID       *big.Int                 // nil = this chain
+	declaredFrom  sdk.AccAddress           // nil = signer
+	unprotected   bool                     // legacy homestead signature
+	signWith      *itutiltypes.TestAccount // nil = from
+	feeAmount     *sdk.Coins               // nil = gas*cap
+	wrapGasLimit  *uint64                  // nil = gas
 	memo          string
 	timeoutHeight uint64
 }
